@@ -52,7 +52,12 @@ def _run_case(case, with_fs=None):
                                 close=m['close'], expect=m['expect']))
             spec = dict(exchanges=exs, keep_alive=True, ignore_length=False,
                         recorder=ph['rec'])
-            obs, _ = httpharn.run_http(spec, dict(cuts=ph.get('cuts', [])), workdir=wd)
+            plan = dict(cuts=ph.get('cuts', []))
+            if ph.get('stall_after') is not None:
+                # the server falls silent after that many bytes; the client has a read timeout
+                plan['stall_after'] = ph['stall_after']
+                spec['timeout'] = 5
+            obs, _ = httpharn.run_http(spec, plan, workdir=wd)
             pobs.append(obs)
             if ph.get('discard'):
                 continue        # an earlier run that the next phase overwrites
